@@ -238,6 +238,17 @@ pub fn record(output: &str) {
             prev[3] += 2.0 * std::f64::consts::PI * r.gen_range(-1..=1) as f64;
             prev[5] += 2.0 * std::f64::consts::PI * r.gen_range(-1..=1) as f64;
         }
+        // one call in six: some of J1, J4, J6 stand 1e-7 .. 1.5e-4 rad from the +-180 degree seam of the normalised
+        // range while the previous vector has them at zero (the home position)
+        if k % 6 == 4 {
+            for j in [0usize, 3, 5] {
+                if r.gen_bool(0.6) {
+                    q[j] = (std::f64::consts::PI - 10f64.powf(r.gen_range(-7.0..-3.8))) * if r.gen_bool(0.5) { 1.0 } else { -1.0 };
+                    prev[j] = 0.0;
+                }
+            }
+            last_q = q;
+        }
         let Some((sols, pose)) = guarded(|| framed.forward_transformed(&q, &prev)) else {
             out.put(json!({"ev": "ftrans", "outcome": "panic"}));
             continue;
